@@ -524,9 +524,29 @@ def sticky(c, res):
         raise CheckError('floor: clear_mac_commands call sites missing: %s' % seen)
     # the frame carries the pending answers: f_opts / payload come from uplink.mac_commands()
     pbf = c.bf(S + 'prepare_buffer')
-    mc = pbf.calls_to('Uplink::mac_commands')
-    res.require(len(mc) == 2, 'C08:prepare_buffer:mac_commands-source', 'queued answers not read for both port-0 and FOpts forms (%d)' % len(mc), None, 'CALLS',
-                instance='prepare_buffer reads uplink.mac_commands() for FOpts and for port 0')
+    # the frame built carries them: FOpts = mac_commands() when there is a port, the MacCommands payload = mac_commands() for port 0
+    has_mc = lambda t_: term_contains(t_, lambda y: isinstance(y, tuple) and y[:1] == ('call',) and isinstance(y[1], str) and y[1].endswith('Uplink::mac_commands'))
+    okm = False
+    n_frames = 0
+    for b in pbf.body.blocks:
+        if b.cleanup or b.idx not in pbf.cfg.reach:
+            continue
+        for s_ in b.stmts:
+            if s_.k == 'assign' and s_.rv.k == 'agg' and (s_.rv.d.get('adt') or '').endswith('creator::DataFrame'):
+                n_frames += 1
+                fl = dict(zip(s_.rv.d['fields'], [term_of_operand(pbf, o) for o in s_.rv.ops]))
+                alts = []          # (f_opts term, payload term) per way of reaching the construction
+                src = rules.find_in_term(fl['f_opts'], lambda y: isinstance(y, tuple) and y[:1] == ('phi',))
+                if src is not None:
+                    for v_, cs_, b_ in defs_with_conditions(pbf, src[1]):
+                        alts.append((v_[1][0], v_[1][1]) if v_[0] == 'tuple' and len(v_[1]) == 2 else (v_, fl['payload']))
+                else:
+                    alts.append((fl['f_opts'], fl['payload']))
+                in_fopts = any(has_mc(a_[0]) and term_contains(a_[1], lambda y: isinstance(y, tuple) and y[:1] == ('agg',) and isinstance(y[1], str) and y[1].endswith('Payload::Data')) for a_ in alts)
+                in_port0 = any(term_contains(a_[1], lambda y: isinstance(y, tuple) and y[:1] == ('agg',) and isinstance(y[1], str) and y[1].endswith('Payload::MacCommands') and has_mc(y)) for a_ in alts)
+                okm = in_fopts and in_port0
+    res.require(okm and n_frames == 1, 'C08:prepare_buffer:mac_commands-source', 'the frame does not carry the queued answers both ways (FOpts next to application data, FRMPayload on port 0)', None, 'PROVENANCE(frame fields)',
+                instance='prepare_buffer: FOpts = uplink.mac_commands() with a data payload; payload = MacCommands(uplink.mac_commands()) on port 0')
 
 
 def run(tier):
